@@ -1,3 +1,4 @@
+\* two channels: 182,298 distinct / 4,136,702 generated states, depth 13, ~1.5 min with 8 idle workers
 SPECIFICATION Spec
 CONSTANTS
   Chans = {"c1", "c2"}
